@@ -145,6 +145,14 @@ def build_variant(work: Path, tag, files, fmt, variant, r):
         if pm.exists():
             try:
                 info["parts"] = parts_check.parts_meaning(pm)
+                # Parts.tla's MergeIsUnion on the files of this very build: the merged file holds, per normal form, the
+                # union of what the per-source part files hold
+                union = {}
+                for pf in sorted(sb.build.rglob("*.parts.json")):
+                    for norm, shapes, _donor in parts_check.parts_meaning(pf)["sets"]:
+                        union.setdefault(norm, set()).update(shapes)
+                merged = {norm: set(shapes) for norm, shapes, _donor in info["parts"]["sets"]}
+                info["parts_is_union"] = (merged == union) if union else None
             except Exception as e:
                 info["parts"] = {"unreadable": str(e)[:100]}
         return sb.sha(ext_font), info
@@ -274,7 +282,9 @@ def run(chk):
         chk.notes["parts_merged_meaning"] = {
             "builds_compared": sum(1 for f, v, (sha, info) in results if sha is not None and "parts" in info),
             "shape_sets_in_base": {f: len(b[1].get("parts", {}).get("sets", [])) for f, b in base.items()},
-            "differing": pdiff[:5]}
+            "differing": pdiff[:5],
+            "merged_is_union_of_part_files": [f"{f} {v}" for f, v, (sha, info) in results if sha is not None and info.get("parts_is_union") is False][:5]
+                                             or "yes, in every build"}
         for d in pdiff[:5]:
             print(f"SPEC-DRIFT module=Parts parts-merged.json means something else under {d[:200]}")
         chk.sample({"formats": fmts, "variants": variants, "sources": sorted(files)})
